@@ -91,3 +91,9 @@ claim("C11",
       "Decides two structural necessary conditions of 'a response depends on its request only': no package-level variable on the request path holds request data (each written variable is per-request keyed, tabled process configuration, or a listed finding with a witness), and every ServeHTTP / middleware entry evaluates the script function in a context it created by CreateContext with the request and response bound into that context. On the pinned tree the nine superglobal caches violate the first and are listed as known findings. Response bytes, schedules and the handler's own logic are not decided.",
       "request path approximated by package membership; writes recognised syntactically (assignment, ++, delete/clear, mutating sync/atomic/bytes methods); values reachable only through objects (static properties, the shared AST) are not covered",
       "DESIGN.md §2 C11")
+
+claim("C07",
+      "typestate dataflow over every access-path node (member declaration looked up from outside must pass a GetModifier() test before use; property declaration must pass Types.Is before the incoming value is stored); sibling cross-check of private/protected predicates; presence checks at parameter/return boundaries; abstract-rejection-before-creation check over all object creation sites",
+      "Decides which access paths have the enforcement at all: for every Call*/Nullsafe*/IndexExpression node, each member lookup on an object seen from outside or on a class named in the source reaches its use only after its modifier was consulted; static lookups that return a bare value are violations by construction; every property store looks at the declared type on every path; parameter binding and function/method return consult Types.Is; every object creation from a class statement follows the abstract-class rejection and concrete class statements validate abstract methods. 19 sites of the pinned tree fail (static members, callable arrays, private==protected predicate) and are listed as known findings with witnesses. Whether Types.Is and the hierarchy predicate give the right answer for each value is not decided.",
+      "access-path nodes selected by type name and printed in evidence; self::/static::/parent:: paths are treated as inside the class for the visibility rule; helper functions that test the modifier of a parameter are summarised",
+      "DESIGN.md §2 C07")
